@@ -366,3 +366,11 @@ func Catch(f func()) (p interface{}) {
 	f()
 	return nil
 }
+
+// ReportFailure writes a replay file for a failure found outside Run/Enumerate
+// (native fuzz targets) so the driver picks it up like any other.
+func ReportFailure(id, check string, c interface{}, f *Failure) {
+	r := newRecorder(id, check)
+	js, _ := json.Marshal(c)
+	r.writeFail(js, f)
+}
